@@ -453,18 +453,20 @@ def translate_along_axes(utils_tree: ast.Module) -> str:
     if fn is None:
         raise Untranslatable("apply_along_axes not found")
     import normalize
-    fn = normalize.inline_temps(fn, extra_pure=frozenset({"np.moveaxis", "range", "len", "tuple", ".reshape"}))
-    srcs = [ast.unparse(s).replace(" ", "") for s in fn.body
-            if not (isinstance(s, ast.Expr) and isinstance(s.value, ast.Constant))]
-    want = ["ifaxisisNone:\nreturnfunc(data.ravel())",
-            "ifisinstance(axis,int):\naxis=(axis,)",
-            "axis=tuple((ax%data.ndimforaxinaxis))",
-            "returnnp.apply_along_axis(func,axis=0,arr=np.moveaxis(data,axis,range(len(axis))).reshape(-1,"
-            "*np.moveaxis(data,axis,range(len(axis))).shape[len(axis):]))"]
-    got = [x.replace("\n    ", "\n") for x in srcs]
+    try:
+        rets, _ = normalize.symbolic_returns(fn)
+    except ValueError as e:
+        raise Untranslatable(f"apply_along_axes: {e}") from None
+    n = lambda e: ast.unparse(e).replace(" ", "") if e is not None else ""  # noqa: E731
+    got = [(n(g), n(v)) for g, v in rets]
+    # the expected value, written as source and brought to the same textual form
+    ax = "tuple(ax % data.ndim for ax in ((axis,) if isinstance(axis, int) else axis))"
+    mv = f"np.moveaxis(data, {ax}, range(len({ax})))"
+    ref = f"np.apply_along_axis(func, axis=0, arr={mv}.reshape(-1, *{mv}.shape[len({ax}):]))"
+    want = [("axisisNone", "func(data.ravel())"), ("", n(ast.parse(ref, mode="eval").body))]
     if got != want:
-        diff = next((g for g, w in zip(got, want) if g != w), got[-1] if got else "")
-        raise Untranslatable(f"apply_along_axes: `{diff[:80]}`")
+        diff = next((g for g, w in zip(got, want) if g != w), got[-1] if got else ("", ""))
+        raise Untranslatable(f"apply_along_axes: `{diff[0][:40]} -> {diff[1][:160]}`")
     return ("/-- `apply_along_axes(func, data, axis)` on a 2-D array (rows = axis 0): `none` flattens in C order, an axis is "
             "moved to the front and `func` is applied to every lane along it -/\n"
             "def alongAxes (func : List Rat → Rat) (m : List (List Rat)) (axis : Option Nat) : List Rat :=\n"
